@@ -209,9 +209,13 @@ package jsonrpc2
 //@ requires loc != nil && !held(loc.Server.mu) && len(nullResult) > 0 && nullResult != nil && registryWF(loc.Server.registry)
 //@ callreq Handle [handler-context-carries-this-service] : ival(ctxget(arg0, ctxService)) == loc && typeis(ctxget(arg0, ctxService), *Local)
 
+// The read loop never waits for a handler: a request is handed to its own goroutine and the loop goes on reading (this
+// is what lets a handler call back over the same connection). The only thing the loop ever sends on a channel is a
+// reply, to the pending entry of that reply's id.
 //@ func (*Remote).Serve
 //@ property C14 C15
 //@ safety on
+//@ sendreq * [read-loop-only-hands-over-replies] {C14} : msg.Request == nil && len(msg.ID) > 0
 //@ requires r != nil && !held(r.mu) && buffered(r)
 //@ ensures [ends-only-on-read-error] err != nil
 //@ callreq getPendingChan [reply-delivered-under-its-own-id] : arg0 == string(msg.ID) && len(msg.ID) > 0 && msg.Request == nil
